@@ -67,6 +67,11 @@ func (op *ShellOperator) VerifCombine(q *queue.TaskQueue, t task.Task) *CombineR
 	return op.combineBindingContextForHook(op.TaskQueues, q, t, nil)
 }
 
+// VerifCombineStop is VerifCombine with a stopCombineFn, as taskHandleHookRun passes one.
+func (op *ShellOperator) VerifCombineStop(q *queue.TaskQueue, t task.Task, stop func(task.Task) bool) *CombineResult {
+	return op.combineBindingContextForHook(op.TaskQueues, q, t, stop)
+}
+
 // VerifInitAdmission forwards to initValidatingWebhookManager (needs webhook settings with certificates).
 func (op *ShellOperator) VerifInitAdmission() error { return op.initValidatingWebhookManager() }
 
